@@ -40,6 +40,10 @@ def _reified_shape_trees(c, n, model):
                 (trole, c.rng.choice([('c', [('/', 'gamma')]), '7', 'a', '-', ('c', [('/', 'x'), (':polarity', '-')])]))]
         if c.rng.random() < 0.3:
             args.reverse()
+        if c.rng.random() < 0.1:
+            # looks like a reification but is none: one argument hangs on a role the table does not pair with this concept
+            k = c.rng.randrange(len(args))
+            args[k] = (c.rng.choice([':ARG0', ':ARG3', ':op1', ':mod', ':ARG1-of']), args[k][1])
         extra = c.rng.random()
         if extra < 0.15:
             args.append((':mod', 'z'))            # another relation: must not be collapsed
@@ -54,6 +58,12 @@ def _reified_shape_trees(c, n, model):
             rr = c.rng.choice([r for r, _, _, _ in table])
             # (the way reify_edges writes it: one argument role is the inverted edge from the parent, the other is inside)
             inner, outer = (trole, srole) if c.rng.random() < 0.7 else (srole, trole)
+            if c.rng.random() < 0.2:
+                # ... but one of the two is a role the table does not pair with this concept: not a reification, must stay
+                if c.rng.random() < 0.5:
+                    inner = c.rng.choice([':ARG0', ':ARG3', ':op1', ':mod'])
+                else:
+                    outer = c.rng.choice([':ARG0', ':ARG3', ':op1', ':mod'])
             rnode2 = (rv, [('/', concept), (inner, c.rng.choice(['7', '-', '"s"', ('c', [('/', 'gamma')])]))])
             yield gen.node_to_json(('a', [('/', 'alpha'), (outer + '-of', rnode2),
                                           (':ARG0', ('b', [('/', 'beta')])), (rr + c.rng.choice(['', '-of']), 'b')]))
@@ -156,6 +166,7 @@ def check_C11(c):
         for jn in _reified_shape_trees(c, _q(c, 700, 15000), model):
             st = None if c.rng.random() < 0.7 else {'strip': True}
             jobs.append(('tr_dereify', dict(node=jn, model=model, start=st)))
+            jobs.append(('tr_inverse', dict(node=jn, model=model, start=st)))     # (judged where nothing in it is collapsible)
     traces = pmake(jobs)
     c.judge('J_Transform', traces, 'inverse', nontrivial=lambda t: t['kind'] == 'inverse' and t['g1']['tr'] != t['g']['tr'] or
             t['kind'] == 'dereify' and t['out']['tr'] != t['g']['tr'])
